@@ -916,23 +916,24 @@ func (g *gen) stmt() {
 				// and pointers taken in one pass keep alive after later passes
 				g.f("define-call-captured")
 				ps, n := g.fresh("ps"), 2+g.r.Intn(3)
+				dp, dq := g.fresh("dp"), g.fresh("dq")
 				var def, ptrT, mut string
 				switch g.r.Intn(4) {
 				case 0:
-					def, ptrT, mut = "dp, dq := mkP(%s)", "*P", "dp.X++"
+					def, ptrT, mut = dp+", "+dq+" := mkP(%s)", "*P", dp+".X++"
 				case 1:
-					def, ptrT, mut = "dp, dq := mkA(%s)", "*[3]int", "dp[1] += 7"
+					def, ptrT, mut = dp+", "+dq+" := mkA(%s)", "*[3]int", dp+"[1] += 7"
 				case 2:
-					def, ptrT, mut = "dp, dq := mkP1(%s), %[1]s", "*P", "dp.Y--"
+					def, ptrT, mut = dp+", "+dq+" := mkP1(%s), %[1]s", "*P", dp+".Y--"
 				default:
-					def, ptrT, mut = "dq, dp := mkI(%s)", "*int", "dp += 3"
+					def, ptrT, mut = dq+", "+dp+" := mkI(%s)", "*int", dp+" += 3"
 				}
 				g.line("var %s []func() string", fs)
 				g.line("var %s []%s", ps, ptrT)
 				body := func(iv string) {
 					g.line(def, iv+" + "+base)
-					g.line("%s = append(%s, func() string { %s; return fmt.Sprint(dp, dq) })", fs, fs, mut)
-					g.line("%s = append(%s, &dp)", ps, ps)
+					g.line("%s = append(%s, func() string { %s; return fmt.Sprint(%s, %s) })", fs, fs, mut, dp, dq)
+					g.line("%s = append(%s, &%s)", ps, ps, dp)
 				}
 				switch form := g.r.Intn(3); {
 				case form == 0:
